@@ -166,6 +166,18 @@ def rule_memo(ctx: Ctx) -> None:
             f"evaluate() passes {raw} to the function (on some path): lazy arguments are not resolved (or args/kwargs are dropped)", "argument resolution not recognised", key="args-resolved")
 
 
+def rule_deferred_objects_are_storable(ctx: Ctx) -> None:
+    """A lazy pipeline returns (and caches) the deferred object itself: with cache_type='disk' or a shared cache the object is
+    pickled by cache.put.  A lock / event / open file on the node makes every cached lazy call raise TypeError."""
+    from ..flow import unpicklable_fields
+
+    lf = ctx.prog.cls(f"{LZ}._LazyFunction")
+    bad = unpicklable_fields(ctx.prog, lf)
+    ctx.add("2-memo", bad[0][0] if bad else lf.qualname, bad[0][1] if bad else lf.loc, not bad, "a deferred object holds no lock / file / executor: it can be stored by a pickling cache" if not bad else
+            f"`{norm(bad[0][1])[:60]}` puts a `{bad[0][3]}` on every deferred object and neither __getstate__ nor __reduce__ leaves `{bad[0][2]}` out: a lazy pipeline with a pickling cache (cache_type='disk', or "
+            "shared lru / hybrid) raises TypeError (cannot pickle) from cache.put instead of returning the deferred object", key="deferred-picklable")
+
+
 def rule_recursion(ctx: Ctx) -> None:
     P = ctx.prog
     el = P.func(f"{LZ}.evaluate_lazy")
@@ -197,6 +209,22 @@ def rule_recursion(ctx: Ctx) -> None:
         regions = tested.get(k, [])
         rec = any("evaluate_lazy(" in norm(r) or ".evaluate()" in norm(r) for r in regions)
         ctx.tri("4-recursion", el, regions[0] if regions else el.node, rec, not regions and k not in table_names, f"{k}: evaluated recursively", f"evaluate_lazy never tests for `{k}`: lazy values inside a {k} reach the user function unevaluated", f"{k}: branch found but no recursive call recognised", key=f"kind {k}")
+    # a look-ahead ("is there anything deferred in here?") that lets evaluate_lazy hand the argument on untouched must descend into
+    # every kind of container that evaluate_lazy itself descends into
+    CONT = ("dict", "tuple", "list", "set")
+    rebuilt_kinds = {k for k in CONT if any("evaluate_lazy(" in norm(r) for r in tested.get(k, []))}
+    xp = el.param_names()[0]
+    for s_ in [s_ for s_ in ast.walk(el.node) if isinstance(s_, ast.If) and any(isinstance(r, ast.Return) and r.value is not None and norm(r.value) == xp for r in s_.body)]:
+        for c in [c for c in ast.walk(s_.test) if isinstance(c, ast.Call) and isinstance(c.func, ast.Name)]:
+            for h in [h for h in ctx.cg.resolve_callable(el, c.func) if h.module.name == LZ and h is not el]:
+                if not any(isinstance(y, ast.Call) and isinstance(y.func, ast.Name) and y.func.id == h.name for y in ast.walk(h.node)):
+                    continue  # not a recursive descent
+                seen_kinds = {x.id for x in ast.walk(h.node) if isinstance(x, ast.Name) and x.id in CONT} | ({"dict"} if any(isinstance(y, ast.Attribute) and y.attr in ("values", "items") for y in ast.walk(h.node)) else set())
+                missing_k = sorted(rebuilt_kinds - seen_kinds)
+                generic_iter = any(isinstance(y, ast.Name) and y.id in ("Iterable", "Collection", "Mapping") for y in ast.walk(h.node))
+                ctx.tri("4-recursion", h, c, not missing_k, bool(missing_k) and not generic_iter, f"the look-ahead {h.name} descends into every container kind evaluate_lazy rebuilds",
+                        f"evaluate_lazy returns its argument untouched when `{norm(c)[:40]}` finds nothing deferred, but {h.name} never looks into {missing_k}: a deferred value nested in a {missing_k[0] if missing_k else ''} inside "
+                        "such a container reaches the user function unevaluated (evaluate() raises TypeError or computes with the deferred object)", f"{h.name}: kinds not recognised", key=f"look-ahead {h.name}")
     # ... and a container that is REBUILT from its items is recognised by its exact type: `isinstance(x, tuple)` is also true for
     # a NamedTuple result of an upstream function, `isinstance(x, dict)` for a Counter / OrderedDict - concrete user values, which
     # the builtin constructor turns into a plain tuple / dict (the eager pipeline hands the object itself to the consumer)
@@ -373,7 +401,7 @@ def rule_identity_preserving_cache(ctx: Ctx) -> None:
 
 
 def check(ctx: Ctx) -> None:
-    for rule in (rule_deferred, rule_memo, rule_recursion, rule_dag, rule_identity_preserving_cache):
+    for rule in (rule_deferred, rule_memo, rule_deferred_objects_are_storable, rule_recursion, rule_dag, rule_identity_preserving_cache):
         ctx.run(rule)
 
 
